@@ -315,6 +315,9 @@ func tagOf(err error) string {
 	segs := strings.Split(err.Error(), ": ")
 	var out []string
 	for i := 0; i < len(segs); i++ {
+		if segs[i] == injectedNetError {
+			break // the network's own error text is not part of the guard tag
+		}
 		a, ok := atomOf[segs[i]]
 		if !ok {
 			if len(out) > 0 && validateWrap[out[len(out)-1]] {
